@@ -7,7 +7,7 @@ Statements are about `Ssl.Ty.sub`, the hand model of `Type::matches` (arms in so
 (`wf`: unions have ≥ 2 pairwise different members none of which is a union, `any` or `!`; struct
 keys are distinct — exactly what `from_str`, `|` and the checker can build).
 Proved here: reflexivity and **transitivity** (`matches_trans`, `eqv_trans`; by induction on the
-total size of the three types), least / greatest element, the variance equations of every constructor,
+total size of the three types), symmetry of `==` (`eqv_symm`), least / greatest element, the variance equations of every constructor,
 invariance of `mut`, the two union laws, and that `matches` respects `==` on both sides.  Soundness for
 first-order values is `C01.matches_sound_partial`.  The join / meet (`concat` / `conjoin`) laws are not
 yet proved; they are exercised on the implementation by the law oracle of the `type` stream.
@@ -104,6 +104,11 @@ theorem matches_trans (a b c : Ty) (wa : wf a = true) (wb : wf b = true) (wc : w
 /-- `==` is transitive (all types) -/
 theorem eqv_trans (a b c : Ty) (h1 : eqv a b = true) (h2 : eqv b c = true) : eqv a c = true :=
   Ty.eqv_trans a b c h1 h2
+
+/-- `==` is symmetric on well-formed types (unions by counting modulo `==`, structs by counting keys):
+    with `eqv_refl` and `eqv_trans`, `==` is an equivalence relation -/
+theorem eqv_symm (a b : Ty) (wa : wf a = true) (wb : wf b = true) (h : eqv a b = true) : eqv b a = true :=
+  Ty.eqv_symm a b wa wb h
 
 /-- between non-union types (left not `!`, right not `any`) only types built by the same constructor match -/
 theorem matches_same_constructor {a b : Ty} (ha1 : isMulti a = false) (ha2 : isNever a = false)
